@@ -303,5 +303,5 @@ def enum_cases(tier):
 
 SUBCHECKS = [
     Sub("enum", check, kind="enum", cases=enum_cases, nontrivial=nontrivial, classes=classes, exhaustive=True, doc="all permutations of small List/Tuple containers and all value re-pairings of small Dict containers, bare and as Task arguments"),
-    Sub("pairs", check, strategy=lambda tier: pair_case(), n={"quick": 4000, "thorough": 100000}, nontrivial=nontrivial, classes=classes, doc="generated node expressions and structural mutations"),
+    Sub("pairs", check, strategy=lambda tier: pair_case(), n={"quick": 2500, "thorough": 100000}, nontrivial=nontrivial, classes=classes, doc="generated node expressions and structural mutations"),
 ]
